@@ -53,8 +53,11 @@ func c09(c *core.Ctx) {
 		})
 	}
 
-	var clientUnit byte
-	var clientDiv int64
+	type clientAlt struct {
+		letter byte
+		div    int64
+	}
+	var clientAlts []clientAlt
 
 	// ---------------------------------------------------------------- R1
 	if c.Rule("R1", "the timeout header is stored only on the ok edge of Deadline() of the context that is bound to the request", 2) {
@@ -140,86 +143,64 @@ func c09(c *core.Ctx) {
 		}
 		format, _ := core.ConstString(vc.Call.Args[0])
 		args, unpacked := core.VariadicArgs(vc.Call.Args[1])
-		if len(format) != 3 || format[:2] != "%d" || !unpacked || len(args) != 1 {
-			if r3 {
-				c.Fail(name+":format", w.call.Pos(), "format %q with %d args is not \"%%d<unit>\"", format, len(args))
+		// alternatives (value expression, unit letter, decision point)
+		type alt struct {
+			val    ssa.Value
+			letter byte
+			at     ssa.Instruction
+		}
+		var alts []alt
+		switch {
+		case unpacked && len(args) == 1 && len(format) == 3 && format[:2] == "%d":
+			alts = append(alts, alt{core.Strip(args[0]), format[2], w.call})
+		case unpacked && len(args) == 2 && format == "%d%s":
+			v, u := core.Strip(args[0]), core.Strip(args[1])
+			if us, ok := core.ConstString(u); ok && len(us) == 1 {
+				alts = append(alts, alt{v, us[0], w.call})
+				break
 			}
+			vp, okv := v.(*ssa.Phi)
+			up, oku := u.(*ssa.Phi)
+			if okv && oku && vp.Block() == up.Block() {
+				for i := range up.Edges {
+					us, ok := core.ConstString(up.Edges[i])
+					if !ok || len(us) != 1 {
+						alts = nil
+						break
+					}
+					pred := up.Block().Preds[i]
+					alts = append(alts, alt{core.Strip(vp.Edges[i]), us[0], pred.Instrs[len(pred.Instrs)-1]})
+				}
+			}
+			if len(alts) == 0 && r3 {
+				c.Undecided(name+":format", w.call.Pos(), "value and unit of the timeout header are chosen in a way the checker cannot pair up")
+			}
+		default:
+			if r3 {
+				c.Fail(name+":format", w.call.Pos(), "format %q with %d args is neither \"%%d<unit>\" nor \"%%d%%s\" with (value, unit)", format, len(args))
+			}
+		}
+		if len(alts) == 0 {
 			continue
 		}
-		clientUnit = format[2]
-		num := core.Strip(args[0])
-		// num: phi[quot, 1] under quot <= 0, or quot
-		var quot ssa.Value
-		clampOK := false
-		if phi, ok := num.(*ssa.Phi); ok {
-			for i, e := range phi.Edges {
-				if k, isC := core.ConstInt(e); isC {
-					if k != 1 {
-						continue
-					}
-					pred := phi.Block().Preds[i]
-					last := pred.Instrs[len(pred.Instrs)-1]
-					// the edge carrying 1 must be taken exactly when quot <= 0
-					for _, e2 := range phi.Edges {
-						if _, isC2 := core.ConstInt(e2); !isC2 {
-							quot = e2
-						}
-					}
-					if quot != nil && core.GuardedBy(last, func(f core.Fact) bool {
-						z, isZ := core.ConstInt(f.Y)
-						return f.X == quot && isZ && ((f.Op == token.LEQ && z == 0) || (f.Op == token.LSS && z == 1))
-					}) {
-						clampOK = true
-					}
-				}
-			}
-		} else {
-			quot = num
-		}
-		if r3 {
-			c.Check(clampOK, name+":clamp", w.call.Pos(), "value is max(quotient, 1): never \"0"+string(clientUnit)+"\" (immediate expiry)", "no clamp of a non-positive quotient to 1 dominates the header store")
-		}
-		// quot = int64(remaining / D0)
-		q := quot
-		for {
-			if ct, ok := q.(*ssa.ChangeType); ok {
-				q = ct.X
+		allClamp, allFloor := true, true
+		whyNot := ""
+		for _, a := range alts {
+			q := evalTimeoutQuot(a.val)
+			if q.why != "" {
+				allFloor = false
+				whyNot = fmt.Sprintf("unit %q: %s", string(a.letter), q.why)
 				continue
 			}
-			if cv, ok := q.(*ssa.Convert); ok {
-				q = cv.X
-				continue
-			}
-			break
-		}
-		okq := false
-		// Duration.Milliseconds()/Microseconds()/Nanoseconds() are the same floor divisions
-		if call, ok := q.(*ssa.Call); ok {
-			div := map[string]int64{"time.Duration.Milliseconds": 1e6, "time.Duration.Microseconds": 1e3, "time.Duration.Nanoseconds": 1}[core.InfoOf(&call.Call).Full()]
-			if div != 0 {
-				if src, _, isC := core.CallResult(call.Call.Args[0]); isC {
-					if n := core.InfoOf(&src.Call).Full(); n == "time.Until" || n == "time.Time.Sub" {
-						clientDiv = div
-						okq = true
-					}
-				}
-			}
-		}
-		if b, ok := q.(*ssa.BinOp); ok && b.Op == token.QUO && core.TypeStr(b.Type()) == "time.Duration" {
-			if d, isC := core.ConstInt(b.Y); isC {
-				clientDiv = d
-				// numerator: time.Until(deadline) / deadline.Sub(now)
-				if call, _, isC := core.CallResult(b.X); isC {
-					n := core.InfoOf(&call.Call).Full()
-					if n == "time.Until" || n == "time.Time.Sub" {
-						okq = true
-					}
-				}
+			clientAlts = append(clientAlts, clientAlt{a.letter, q.div})
+			if !q.clamped && !quotientPositiveByGuard(a.val, a.at) {
+				allClamp = false
 			}
 		}
 		if r3 {
-			c.Check(okq, name+":floor", w.call.Pos(), fmt.Sprintf("value = integer quotient of the remaining time by %d ns (Go '/' truncates toward zero: never rounds up)", clientDiv),
-				"value sent is not the integer quotient time.Until(deadline)/D0")
+			c.Check(allClamp, name+":clamp", w.call.Pos(), "every value sent is >= 1: max(quotient, 1), or a quotient taken only when the dividend is at least the divisor (never \"0<unit>\": immediate expiry)", "no clamp of a non-positive quotient to 1 dominates the header store")
+			c.Check(allFloor, name+":floor", w.call.Pos(), fmt.Sprintf("each value is the integer quotient of the remaining time by its unit %v (Go '/' truncates toward zero: never rounds up)", clientAlts),
+				"the value sent is not the integer (floor) quotient of time.Until(deadline) by the unit it is sent with: "+whyNot+" — the server could give the handler more time than the caller has")
 		}
 	}
 	if r3 {
@@ -233,18 +214,50 @@ func c09(c *core.Ctx) {
 	}
 	var mul *ssa.BinOp
 	var unitPhi *ssa.Phi
+	// the parser family: the function that reads the header and the package functions it calls
+	// (a helper that parses the text is followed, depth <= 2)
+	var fam []*ssa.Function
+	reader := parser
 	if parser != nil {
-		core.Instrs(parser, func(in ssa.Instruction) {
-			b, ok := in.(*ssa.BinOp)
-			if !ok || b.Op != token.MUL || core.TypeStr(b.Type()) != "time.Duration" {
+		seenF := map[*ssa.Function]bool{}
+		var addF func(f *ssa.Function, depth int)
+		addF = func(f *ssa.Function, depth int) {
+			if f == nil || f.Blocks == nil || seenF[f] || depth > 2 {
 				return
 			}
-			for _, side := range []ssa.Value{b.X, b.Y} {
-				if phi, ok := side.(*ssa.Phi); ok {
-					mul, unitPhi = b, phi
+			seenF[f] = true
+			fam = append(fam, f)
+			for _, call := range core.CallsIn(f, func(_ *ssa.Call, ci core.CallInfo) bool {
+				return ci.Static != nil && core.PkgIs(ci.Static, "httpgrpc")
+			}) {
+				// only helpers that receive a string (the header text)
+				callee := core.InfoOf(&call.Call).Static
+				takesString := false
+				for _, pp := range callee.Params {
+					if core.TypeStr(pp.Type()) == "string" {
+						takesString = true
+					}
+				}
+				if takesString {
+					addF(callee, depth+1)
 				}
 			}
-		})
+		}
+		addF(parser, 0)
+		for _, f := range fam {
+			core.Instrs(f, func(in ssa.Instruction) {
+				b, ok := in.(*ssa.BinOp)
+				if !ok || b.Op != token.MUL || core.TypeStr(b.Type()) != "time.Duration" {
+					return
+				}
+				for _, side := range []ssa.Value{b.X, b.Y} {
+					if phi, ok := side.(*ssa.Phi); ok {
+						mul, unitPhi = b, phi
+						parser = f
+					}
+				}
+			})
+		}
 	}
 	if c.Rule("R2", "the server's unit table is exactly the wire spec's {H,M,S,m,u,n} and maps the client's unit letter to the client's divisor", 7) {
 		switch {
@@ -304,11 +317,24 @@ func c09(c *core.Ctx) {
 					c.Fail(name+":unit:"+string(l), unitPhi.Pos(), "unit %q is not in the wire spec", string(l))
 				}
 			}
-			c.Check(zeroDefault, name+":unknown-unit", unitPhi.Pos(), "unknown suffix leaves unit 0 (no deadline added)", "unknown suffix does not leave the unit unset")
-			if clientUnit != 0 {
-				c.Check(table[clientUnit] == clientDiv && clientDiv != 0, "client-server:unit-agreement", unitPhi.Pos(),
-					fmt.Sprintf("client sends quotient by %d ns with suffix %q; server multiplies %q by %d ns", clientDiv, string(clientUnit), string(clientUnit), table[clientUnit]),
-					fmt.Sprintf("client divides by %d ns and writes suffix %q but the server multiplies that suffix by %d ns", clientDiv, string(clientUnit), table[clientUnit]))
+			// an unknown suffix must not reach the multiplication: either it leaves the unit 0 and the product is
+			// computed only under unit != 0, or the unit switch leaves (returns) on its default arm so that only
+			// the matched letters reach the product
+			if zeroDefault {
+				g := core.GuardedBy(mul, func(f core.Fact) bool {
+					z, isZ := core.ConstInt(f.Y)
+					return f.Op == token.NEQ && isZ && z == 0 && (f.X == ssa.Value(unitPhi) || stripCT(f.X) == ssa.Value(unitPhi))
+				})
+				c.Check(g, name+":unknown-unit", unitPhi.Pos(), "unknown suffix leaves unit 0 and value*unit is computed only under unit != 0 (no deadline added)", "an unknown suffix leaves the unit 0 but value*unit is computed without a unit != 0 test: an unknown unit yields a zero timeout (immediate expiry) instead of no deadline")
+			} else {
+				c.Ok(name+":unknown-unit", unitPhi.Pos(), "only the %d matched letters reach value*unit (the default arm of the unit switch leaves before it)", len(table))
+			}
+			if len(clientAlts) > 0 {
+				for _, ca := range clientAlts {
+					c.Check(table[ca.letter] == ca.div && ca.div != 0, "client-server:unit-agreement:"+string(ca.letter), unitPhi.Pos(),
+						fmt.Sprintf("client sends quotient by %d ns with suffix %q; server multiplies %q by %d ns", ca.div, string(ca.letter), string(ca.letter), table[ca.letter]),
+						fmt.Sprintf("client divides by %d ns and writes suffix %q but the server multiplies that suffix by %d ns", ca.div, string(ca.letter), table[ca.letter]))
+				}
 			} else {
 				c.Fail("client-server:unit-agreement", unitPhi.Pos(), "client unit letter unknown")
 			}
@@ -352,18 +378,86 @@ func c09(c *core.Ctx) {
 			c.Check(guard, name+":overflow-guard", mul.Pos(), "value <= MaxInt64/unit dominates value*unit (cannot wrap around)",
 				"time.Duration(value)*unit is not dominated by an upper-bound test of value against MaxInt64/unit: a legal value such as 99999999H wraps around to a negative duration (deadline in the past)")
 			// what reaches WithTimeout: mul or a saturating constant
-			for _, wt := range core.CallsIn(parser, func(call *ssa.Call, ci core.CallInfo) bool {
-				return ci.Is("context.WithTimeout") || ci.Is("context.WithDeadline")
-			}) {
-				d := wt.Call.Args[1]
-				okSat := core.AllOrigins(d, func(o ssa.Value) bool {
-					if o == ssa.Value(mul) {
-						return true
+			isProductOrSat := func(o ssa.Value) bool {
+				if o == ssa.Value(mul) {
+					return true
+				}
+				k, isC := core.ConstInt(o)
+				return isC && k >= 1<<62
+			}
+			nWT := 0
+			for _, f := range fam {
+				for _, wt := range core.CallsIn(f, func(call *ssa.Call, ci core.CallInfo) bool {
+					return ci.Is("context.WithTimeout") || ci.Is("context.WithDeadline")
+				}) {
+					nWT++
+					d := wt.Call.Args[1]
+					okSat := false
+					viaHelper := false
+					if f == parser {
+						okSat = core.AllOrigins(d, isProductOrSat)
+					} else {
+						// the product is computed by a helper: d is its result, and on every return of the helper that
+						// result is the product, the saturating constant, or (only together with a false/err second
+						// result, i.e. "invalid") anything
+						okSat = core.AllOrigins(d, func(o ssa.Value) bool {
+							call, idx, isC := core.CallResult(o)
+							return isC && idx == 0 && core.InfoOf(&call.Call).Static == parser
+						})
+						viaHelper = true
+						for _, r := range core.Returns(parser) {
+							if len(r.Results) == 0 || core.TypeStr(r.Results[0].Type()) != "time.Duration" {
+								okSat = false
+								continue
+							}
+							valid := true // does this return report "valid"?
+							if len(r.Results) >= 2 {
+								if b, isB := core.ConstBool(r.Results[1]); isB && !b {
+									valid = false
+								}
+								if core.IsErrorValue(r.Results[1]) && core.ClassifyErr(r.Results[1], r) == core.ErrNonNil {
+									valid = false
+								}
+							}
+							if valid && !core.AllOrigins(r.Results[0], isProductOrSat) {
+								if len(r.Results) < 2 {
+									c.Fail(name+":zero-means-absent", r.Pos(), "the parsing helper returns only a duration and uses a constant (0) for 'absent or malformed': a valid zero timeout (\"0S\", \"0n\") is indistinguishable from no timeout, so the handler either gets no deadline for it or a malformed header gets one")
+								}
+								okSat = false
+							}
+						}
 					}
-					k, isC := core.ConstInt(o)
-					return isC && k >= 1<<62
-				})
-				c.Check(okSat, name+":saturate", wt.Pos(), "the duration is value*unit or a saturating constant >= 2^62 ns", "the duration given to the context is neither the guarded product nor a saturating constant")
+					what := "the duration is value*unit or a saturating constant >= 2^62 ns"
+					if viaHelper {
+						what += " (returned by the parsing helper on its 'valid' returns)"
+					}
+					c.Check(okSat, name+":saturate", wt.Pos(), what, "the duration given to the context is neither the guarded product nor a saturating constant")
+					// a valid timeout always bounds the handler: the deadline is not conditional on the duration's value
+					condOnValue := false
+					for _, ef := range core.DominatingFacts(wt) {
+						for _, opnd := range []ssa.Value{ef.Fact.X, ef.Fact.Y} {
+							if opnd == nil {
+								continue
+							}
+							if core.TypeStr(opnd.Type()) == "time.Duration" && (core.SameVal(opnd, d) || sameOrigins(opnd, d)) {
+								condOnValue = true
+							}
+						}
+					}
+					c.Check(!condOnValue, name+":deadline-for-every-valid-value", wt.Pos(), "the deadline is applied without a test on the duration's value (a zero timeout expires at once, as the wire format says)",
+						"the deadline is applied only if the parsed duration passes a test on its value: a valid timeout such as \"0S\" is treated like an absent header and the handler runs unbounded")
+					if f == parser {
+						// single-function form: once the product (or the saturation) is computed every path applies it
+						for _, r := range core.Returns(f) {
+							if core.Reachable(core.After(mul), r) && !core.MustPass(core.After(mul), r, func(in ssa.Instruction) bool { return in == ssa.Instruction(wt) }) {
+								c.Fail(name+":deadline-for-every-valid-value:path", wt.Pos(), "after value*unit was computed a return is reachable without applying the deadline")
+							}
+						}
+					}
+				}
+			}
+			if nWT == 0 {
+				c.Fail(name+":with-timeout", parser.Pos(), "ANCHOR-MISSING: no context.WithTimeout/WithDeadline in the timeout parser or its callers")
 			}
 		}
 		c.EndRule()
@@ -374,14 +468,21 @@ func c09(c *core.Ctx) {
 		if parser == nil {
 			c.Missing("timeout parser")
 		} else {
-			name := core.FuncName(parser)
-			for _, ob := range core.BoundsOf(parser) {
-				if ob.Proven {
-					c.Ok(name+":bounds:"+ob.Desc, ob.Instr.Pos(), "%s", ob.Why)
-				} else {
-					c.Fail(name+":bounds:"+ob.Desc, ob.Instr.Pos(), "index expression may be out of range: %s", ob.Why)
+			name := core.FuncName(reader)
+			core.ComputeParamLenHints(fam)
+			for _, f := range fam {
+				if f != parser && f != reader {
+					continue
+				}
+				for _, ob := range core.BoundsOf(f) {
+					if ob.Proven {
+						c.Ok(core.FuncName(f)+":bounds:"+ob.Desc, ob.Instr.Pos(), "%s", ob.Why)
+					} else {
+						c.Fail(core.FuncName(f)+":bounds:"+ob.Desc, ob.Instr.Pos(), "index expression may be out of range: %s", ob.Why)
+					}
 				}
 			}
+			parser := reader
 			// parse failure / unknown unit → a return with nil error is reachable without WithTimeout
 			okRet := false
 			for _, r := range core.Returns(parser) {
@@ -394,7 +495,9 @@ func c09(c *core.Ctx) {
 			leak := false
 			for _, r := range core.Returns(parser) {
 				n := len(r.Results)
-				if n > 0 && core.OriginIs(r.Results[n-1], func(o ssa.Value) bool { return core.IsResultOf(o, 1, "strconv.ParseInt", "strconv.ParseUint", "strconv.Atoi") }) {
+				if n > 0 && core.OriginIs(r.Results[n-1], func(o ssa.Value) bool {
+					return core.IsResultOf(o, 1, "strconv.ParseInt", "strconv.ParseUint", "strconv.Atoi")
+				}) {
 					leak = true
 				}
 			}
@@ -470,4 +573,96 @@ func sameCtxOrChild(bound, arg ssa.Value) bool {
 	_ = chain
 	_, rb := ctxChain(bound)
 	return r2 == rb
+}
+
+type timeoutQuot struct {
+	div     int64 // the value is floor(remaining / div ns)
+	clamped bool  // max(…, 1) applied
+	why     string
+}
+
+// evalTimeoutQuot recognises the value sent in the timeout header as a floor
+// quotient of the remaining time: Duration.Milliseconds()/… or Duration/const
+// of time.Until/Time.Sub, further integer divisions by positive constants, and
+// the clamp "if q <= 0 { q = 1 }". Anything else (an addition that rounds up,
+// a multiplication, another source) is reported.
+func evalTimeoutQuot(v ssa.Value) timeoutQuot {
+	v = stripCT(v)
+	switch x := v.(type) {
+	case *ssa.Phi:
+		if len(x.Edges) == 2 {
+			for i, e := range x.Edges {
+				k, isC := core.ConstInt(e)
+				if !isC || k != 1 {
+					continue
+				}
+				other := x.Edges[1-i]
+				pred := x.Block().Preds[i]
+				last := pred.Instrs[len(pred.Instrs)-1]
+				if core.GuardedBy(last, func(f core.Fact) bool {
+					z, isZ := core.ConstInt(f.Y)
+					return core.SameVal(f.X, other) && isZ && ((f.Op == token.LEQ && z == 0) || (f.Op == token.LSS && z == 1))
+				}) {
+					q := evalTimeoutQuot(other)
+					q.clamped = true
+					return q
+				}
+			}
+		}
+		return timeoutQuot{why: "the value is chosen between alternatives that are not 'quotient, or 1 when the quotient is <= 0'"}
+	case *ssa.Call:
+		div := map[string]int64{"time.Duration.Milliseconds": 1e6, "time.Duration.Microseconds": 1e3, "time.Duration.Nanoseconds": 1}[core.InfoOf(&x.Call).Full()]
+		if div != 0 {
+			if src, _, isC := core.CallResult(x.Call.Args[0]); isC {
+				if n := core.InfoOf(&src.Call).Full(); n == "time.Until" || n == "time.Time.Sub" {
+					return timeoutQuot{div: div}
+				}
+			}
+			return timeoutQuot{why: "the duration converted is not time.Until(deadline) / deadline.Sub(now)"}
+		}
+		return timeoutQuot{why: "the value is the result of " + core.InfoOf(&x.Call).Full()}
+	case *ssa.BinOp:
+		if x.Op != token.QUO {
+			return timeoutQuot{why: "the value is computed with '" + x.Op.String() + "' (only truncating division keeps it a floor quotient; adding before dividing rounds up)"}
+		}
+		k, isC := core.ConstInt(x.Y)
+		if !isC || k <= 0 {
+			return timeoutQuot{why: "division by something other than a positive constant"}
+		}
+		if core.TypeStr(x.X.Type()) == "time.Duration" {
+			if call, _, isCall := core.CallResult(x.X); isCall {
+				if n := core.InfoOf(&call.Call).Full(); n == "time.Until" || n == "time.Time.Sub" {
+					return timeoutQuot{div: k}
+				}
+			}
+		}
+		q := evalTimeoutQuot(x.X)
+		if q.why != "" {
+			return q
+		}
+		if q.div > math.MaxInt64/k {
+			return timeoutQuot{why: "unit overflows"}
+		}
+		return timeoutQuot{div: q.div * k} // floor(floor(a/b)/k) = floor(a/(b*k)) for a >= 0; a clamp below does not survive the division
+	}
+	return timeoutQuot{why: fmt.Sprintf("the value is a %T, not a quotient of the remaining time", v)}
+}
+
+// quotientPositiveByGuard: v = X / k is taken only where X >= k was established.
+func quotientPositiveByGuard(v ssa.Value, at ssa.Instruction) bool {
+	b, ok := stripCT(v).(*ssa.BinOp)
+	if !ok || b.Op != token.QUO {
+		return false
+	}
+	k, isC := core.ConstInt(b.Y)
+	if !isC {
+		return false
+	}
+	return core.GuardedBy(at, func(f core.Fact) bool {
+		K, isK := core.ConstInt(f.Y)
+		if !isK || !core.SameVal(stripCT(f.X), stripCT(b.X)) {
+			return false
+		}
+		return (f.Op == token.GTR && K >= k-1) || (f.Op == token.GEQ && K >= k)
+	})
 }
